@@ -65,10 +65,16 @@ Print Assumptions C07_crash_correspondence_sound.
 
 From DC Require Import Val DiskBase SqlBase Gen_Disk Disk Cache Refs Txn TxnBlock TxnBlockFacts.
 
-(* the crash variant of the same defect (finding C07-F1) on the real bodies: `set k BIG; with transact: set k 5; <kill>`
-   killed after the inner set released the old file and before the COMMIT: SQLite rolls the row back, the lock is
-   free, and the committed row refers to a file that no longer exists *)
-Theorem C07_kill_in_block_refuted :
-  lock w3_final = None /\ length (rows (db w3_final)) = 1%nat /\ dangling w3_final = true.
-Proof. exact kill_in_block_loses_file_real. Qed.
-Print Assumptions C07_kill_in_block_refuted.
+(* the crash variant of the defect repaired under C06-F1 (finding C07-F1): `set k BIG; with transact: set k 5; <kill>` killed
+   after the inner set and before the COMMIT.  On the body the code had before, the inner set had already removed the old
+   file: SQLite rolls the row back and it refers to a file that no longer exists.  On the body of today nothing is removed
+   before the COMMIT: the row is back with its file. *)
+Theorem C07_kill_in_block_old_body :
+  lock old3_final = None /\ length (rows (db old3_final)) = 1%nat /\ dangling old3_final = true.
+Proof. exact old_body_kill_in_block_loses_file. Qed.
+Print Assumptions C07_kill_in_block_old_body.
+
+Theorem C07_kill_in_block_keeps_file :
+  lock w3_final = None /\ length (rows (db w3_final)) = 1%nat /\ dangling w3_final = false.
+Proof. exact (proj1 (proj2 (proj2 repaired_body_keeps_file))). Qed.
+Print Assumptions C07_kill_in_block_keeps_file.
